@@ -679,7 +679,7 @@ impl Simplifier {
                 ),
                 InfixOperator::Slash,
                 _,
-            ) if &right == same => other.clone(),
+            ) if &right == same => self.simplify(other.clone(), limit - 1),
 
             // Mul inside Div on right with cancellation: a / (a * b) = a / (b * a) = 1 / b
             (
@@ -753,7 +753,7 @@ impl Simplifier {
                 }),
                 InfixOperator::Star,
                 _,
-            ) if same == &right => other.clone(),
+            ) if same == &right => self.simplify(other.clone(), limit - 1),
 
             // Div inside Mul on right with cancellation: a * (b / a) = b
             (
@@ -764,7 +764,7 @@ impl Simplifier {
                     operator: InfixOperator::Slash,
                     right: same,
                 }),
-            ) if &left == same => other.clone(),
+            ) if &left == same => self.simplify(other.clone(), limit - 1),
 
             //----------------------------------------------------------------
             // Sixth: catch-all if no other patterns match
@@ -796,7 +796,7 @@ impl Simplifier {
                 Expression::Prefix(PrefixExpression {
                     operator: PrefixOperator::Minus,
                     expression: inner,
-                }) => inner.clone(),
+                }) => self.simplify(inner.clone(), limit - 1),
 
                 _ => interned::neg(expr),
             },
